@@ -31,7 +31,7 @@ REQUIRED_REACH = ['ParseMCNPCell.parse_importance_cards',
 FAMILIES = ['cell-cards', 'cell-cards-np', 'data-n', 'data-np-two-cards',
             'data-np-one-card', 'shorthand-r', 'shorthand-m', 'shorthand-i',
             'mixed-sources', 'one-particle-zero-cell', 'one-particle-zero-data',
-            'filled-cells',
+            'filled-cells', 'extra-keywords',
             'zero-first', 'zero-last', 'all-but-one-zero', 'like-but-imp0',
             'like-but-imp1']
 _PER = {'quick': 10, 'thorough': 600}
@@ -147,6 +147,16 @@ def build(case):
             new.imp = {'n': '2'}
         deck.cells.append(new)
         deck.tags.add('like.imp')
+    if fam == 'extra-keywords':
+        # other legal cell parameters that have nothing to do with the
+        # geometry conversion
+        on_cards(['n'])
+        pool = ['vol=4.2', 'tmp=2.53e-8', 'ext:n=0', 'fcl:n=0', 'pwt=-1',
+                'nonu=1', 'nonu=0', 'unc:n=1', 'elpt:n=1e-3', 'dxc1:n=0.5',
+                'VOL=1', 'pd1:n=1', 'wwn1:n=0.5', 'bflcl=0', 'cosy=1']
+        for cel in cells[:ncell]:
+            if rng.random() < 0.7:
+                cel.extra_opts = rng.sample(pool, rng.randint(1, 3))
     if fam == 'filled-cells':
         # level-0 cells that carry a FILL: the pieces generated from the
         # filling universe must follow the importance of the filled cell
